@@ -71,6 +71,8 @@ static absreq base_post() { absreq r=R(9002,"POST","/async","/f",0); B(r,FORM,"f
 static absreq base_filt() { absreq r=R(9003,"POST","/filt","/u",0); B(r,"text/plain","0123456789abcdef"); return r; }
 static absreq with_cl(absreq r,std::string const &cl) { r.hascl=false; r.extra.insert(r.extra.begin(),mk("CONTENT_LENGTH",cl)); return r; }
 
+static void length_cross_cases(std::vector<c02case> &v,int proto,bool quick);
+
 static void http_cases(std::vector<c02case> &v,bool quick,uint64_t seed)
 {
 	std::string g=http_encode(base_get(),http_opt()), p=http_encode(base_post(),http_opt()), f=http_encode(base_filt(),http_opt());
@@ -110,6 +112,7 @@ static void http_cases(std::vector<c02case> &v,bool quick,uint64_t seed)
 	add(v,"http-keep-alive-pair","ok","GET /sync HTTP/1.1\r\nConnection: keep-alive\r\n\r\nGET /async HTTP/1.1\r\nConnection: close\r\n\r\n",'w',2);
 	add(v,"http-valid","ok",g,'w'); add(v,"http-valid","ok",p,'w'); add(v,"http-valid","ok",f,'w');
 	add(v,"http-valid-halfclose","any",g); add(v,"http-valid-halfclose","any",f);
+	length_cross_cases(v,HTTP,quick);
 	vt::rng r(seed*77+1);
 	int nr=quick?150:3000;
 	for(int i=0;i<nr;i++) add(v,"http-random-bytes","any",rnd_bytes(r,1+r(i%5==0?400:48),HTTP),r.chance(1,4)?'r':'h');
@@ -150,6 +153,7 @@ static void scgi_cases(std::vector<c02case> &v,bool quick,uint64_t seed)
 	add(v,"scgi-trailing-bytes","any",g+"trailing");
 	add(v,"scgi-valid","ok",g,'w'); add(v,"scgi-valid","ok",p,'w'); add(v,"scgi-valid","ok",f,'w');
 	add(v,"scgi-valid-halfclose","any",p);
+	length_cross_cases(v,SCGI,quick);
 	vt::rng r(seed*77+2);
 	int nr=quick?150:3000;
 	for(int i=0;i<nr;i++) add(v,"scgi-random-bytes","any",rnd_bytes(r,1+r(i%5==0?400:48),SCGI),r.chance(1,4)?'r':'h');
@@ -228,6 +232,7 @@ static void fcgi_cases(std::vector<c02case> &v,bool quick,uint64_t seed)
 	add(v,"fcgi-valid-halfclose","any",p);
 	fcgi_padded_cases(v,quick);
 	#undef REC
+	length_cross_cases(v,FCGI,quick);
 	vt::rng r(seed*77+3);
 	int nr=quick?150:3000;
 	for(int i=0;i<nr;i++) add(v,"fcgi-random-bytes","any",rnd_bytes(r,1+r(i%5==0?400:48),FCGI),r.chance(1,4)?'r':'h');
@@ -317,6 +322,33 @@ static void fcgi_padded_cases(std::vector<c02case> &v,bool quick)
 				{ recstream m; m.add(1,7,fcgi_begin(7,1,0).substr(8),0); m.add(4,7,pp,k); m.add(4,7,"",k); m.add(5,7,"abc",k); m.add(5,7,"",k);
 				  for(size_t ri=1;ri<m.rs.size();ri++) { std::vector<std::vector<int> > bc=boundary_cuts(m.rs[ri]); if(!bc.empty()) addc(v,"fcgi-stdin-without-content-length-padded","bad",m.w,bc[0],false); } }
 			}
+		}
+	}
+}
+
+// declared length classes x content types x applications (whole-body buffer, chunked reading through the multipart
+// parser, a raw_content_filter, a multipart_filter) on one front-end
+static void length_cross_cases(std::vector<c02case> &v,int proto,bool quick)
+{
+	struct { char const *name,*val,*label; } lens[]={
+		{"neg1","-1","bad"},{"negint","-2147483648","bad"},{"huge","9223372036854775807","bad"},{"over-limit","1048577","bad"},
+		{"nonnumeric","abc","any"},{"zero-with-body","0","any"},{"negmin","-9223372036854775808","bad"},{"neg2","-2","bad"}};
+	struct { char const *name,*val; } cts[]={
+		{"urlencoded",FORM},{"text","text/plain"},{"multipart","multipart/form-data; boundary=xYzZy"},{"multipart-noboundary","multipart/form-data"}};
+	struct { char const *name,*script; } apps[]={{"sync","/sync"},{"async","/async"},{"rawfilter","/rawf"},{"mpfilter","/mpf"}};
+	std::string body="--xYzZy\r\nContent-Disposition: form-data; name=\"a\"\r\n\r\n1\r\n--xYzZy--\r\n";
+	int nl=quick?6:8;
+	for(int l=0;l<nl;l++) for(int c=0;c<4;c++) for(int a=0;a<4;a++) {
+		std::string cls=std::string(proto_name[proto])+"-cl-"+lens[l].name+"-"+cts[c].name+"-"+apps[a].name;
+		absreq r=R(9100,"POST",apps[a].script,"/u",0); r.hasct=true; r.ct=cts[c].val;
+		if(proto==HTTP)
+			add(v,cls.c_str(),lens[l].label,std::string("POST ")+apps[a].script+"/u HTTP/1.0\r\nContent-Type: "+cts[c].val+"\r\nContent-Length: "+lens[l].val+"\r\n\r\n"+body);
+		else if(proto==SCGI)
+			add(v,cls.c_str(),lens[l].label,scgi_encode_vars(cgi_vars(with_cl(r,lens[l].val)),body));
+		else {
+			std::string pre=fcgi_begin(7,1,0)+fcgi_rec(4,7,fcgi_pairs(cgi_vars(with_cl(r,lens[l].val)),0),0)+fcgi_rec(4,7,"",0);
+			add(v,cls.c_str(),lens[l].label,pre+fcgi_rec(5,7,"",0));                       // a non-positive length expects the empty STDIN at once
+			add(v,(cls+"-with-stdin").c_str(),lens[l].label,pre+fcgi_rec(5,7,body,0)+fcgi_rec(5,7,"",0));
 		}
 	}
 }
